@@ -40,7 +40,7 @@ func ruleLessThanSameType(c *Ctx) {
 			if !ok || !isType(b.X) || !isType(b.Y) {
 				return false
 			}
-			return (b.Op == token.EQL && cd.Sense) || (b.Op == token.NEQ && !cd.Sense)
+			return (eqHolds(b, cd)) || (b.Op == token.NEQ && !cd.Sense)
 		}, 0)
 		if !same {
 			okc = false
